@@ -188,22 +188,54 @@ def run(cx):
             elif isinstance(n, ast.Attribute) and n.attr in gen_names and not (isinstance(parent(n), ast.Call) and parent(n).func is n):
                 sites.append(n)  # method value taken: treated as a call site
     cx.need(sites, "R16e", "ak/conn_http.py::_HttpConnImpl.do_request", "id generator is never called")
-    for s in sites:
-        cx.ob("R16e", s, len(sites) == 1, "single call site of the id generator" if len(sites) == 1 else f"{len(sites)} call sites of the id generator (numbers may be consumed without being sent)")
-        fs = facts(s)
-        enabled = any(isinstance(e, ast.Compare) and isinstance(e.ops[0], ast.IsNot) and pol and is_attr(e.left, counters) or
-                      isinstance(e, ast.Compare) and isinstance(e.ops[0], ast.Is) and not pol and is_attr(e.left, counters)
-                      for e, pol in fs if isinstance(e, ast.Compare) and len(e.ops) == 1)
-        cx.ob("R16e", s, enabled, "call is control-dependent on the counter being enabled (not None)" if enabled else
-              "call is not guarded by `counter is not None` (TypeError / ids when disabled)")
-        # the result must be stored under a constant header key K and the call be guarded by `K not in <same dict>`
-        st = enclosing_stmt(s)
-        key = dct = None
+
+    def call_sites_of(fname):
+        out = []
+        for m3 in repo.modules.values():
+            for n in ast.walk(m3.tree):
+                if isinstance(n, ast.Call) and call_name(n) == fname:
+                    out.append(n)
+                elif isinstance(n, ast.Attribute) and n.attr == fname and not (isinstance(parent(n), ast.Call) and parent(n).func is n):
+                    out.append(n)
+        return out
+
+    for s0 in sites:
+        cx.ob("R16e", s0, len(sites) == 1, "single call site of the id generator" if len(sites) == 1 else f"{len(sites)} call sites of the id generator (numbers may be consumed without being sent)")
+    # follow the number outwards through pass-through wrappers (functions that return a value computed from it) to the statement
+    # that stores it under a header key; every level has exactly one call site
+    s_ = sites[0]
+    chain = [s_]
+    store = None
+    for _ in range(4):
+        st = enclosing_stmt(s_)
         if isinstance(st, ast.Assign) and len(st.targets) == 1 and isinstance(st.targets[0], ast.Subscript) and const(st.targets[0].slice, str):
-            key, dct = st.targets[0].slice.value, norm(st.targets[0].value)
-        cx.ob("R16e", st, key is not None, f"generated id is stored under the constant header key {key!r}" if key else
-              "generated id is not stored directly under a constant header key")
-        if key is not None:
+            store = st
+            break
+        f_ = enclosing_func(s_)
+        # pass-through: the call's value reaches a `return` (directly or via one local)
+        local = st.targets[0].id if isinstance(st, ast.Assign) and len(st.targets) == 1 and isinstance(st.targets[0], ast.Name) else None
+        flows = isinstance(st, ast.Return) or (local is not None and any(isinstance(r, ast.Return) and r.value is not None and local in names_in(r.value) for r in walk_local(f_)))
+        if not flows:
+            break
+        callers = call_sites_of(f_.name)
+        if len(callers) != 1:
+            cx.ob("R16e", f_, False, f"{len(callers)} call sites of {f_.name}, which hands out request numbers (numbers may be consumed without being sent)")
+            break
+        s_ = callers[0]
+        chain.append(s_)
+    cx.ob("R16e", enclosing_stmt(chain[-1]), store is not None, f"generated id is stored under the constant header key {store.targets[0].slice.value!r}" if store is not None else
+          "generated id is not stored directly under a constant header key")
+    all_facts = [fp for c in chain for fp in facts(c)]
+    enabled = any(isinstance(e, ast.Compare) and len(e.ops) == 1 and (isinstance(e.ops[0], ast.IsNot) and pol and is_attr(e.left, counters) or
+                                                                      isinstance(e.ops[0], ast.Is) and not pol and is_attr(e.left, counters)) for e, pol in all_facts)
+    cx.ob("R16e", chain[-1], enabled, "the number is taken only when the counter is enabled (not None)" if enabled else
+          "call is not guarded by `counter is not None` (TypeError / ids when disabled)")
+    if store is not None:
+        st = store
+        s = chain[-1]
+        fs = facts(s)
+        key, dct = st.targets[0].slice.value, norm(st.targets[0].value)
+        if True:
             notin = [e for e, pol in fs if isinstance(e, ast.Compare) and len(e.ops) == 1 and (
                 (isinstance(e.ops[0], ast.NotIn) and pol) or (isinstance(e.ops[0], ast.In) and not pol))
                 and norm(e.comparators[0]) == dct and const(e.left, str)]
